@@ -43,7 +43,7 @@ pub fn judge_session<C: Suite>(
         }
     }
     // aggregation must succeed, in the default and in the all-cheaters mode, with equal results
-    let sig = match frost_core::aggregate(&sess.pkg, &sess.shares, &grp.pkp) {
+    let sig = match C::api_aggregate(&sess.pkg, &sess.shares, &grp.pkp) {
         Ok(s) => s,
         Err(e) => {
             let mut d = detail("aggregate failed on honest session");
